@@ -121,7 +121,8 @@ static Model* make_model(long long kind, Db* dbin, std::vector<std::unique_ptr<A
   else m = Model::createFromParam(ECov::SPHERICAL, 4., 1.);
   if (m != nullptr && (kind == 3 || kind == 6) && dbin != nullptr) {
     AnamHermite* an = AnamHermite::create(8);
-    if (an->fitFromLocator(dbin) == 0) { if (kind == 3) an->setRCoef(0.8); m->setAnam(an); }
+    VectorDouble z0 = dbin->getColumnByLocator(ELoc::Z, 0, false);
+    if (! z0.empty() && an->fitFromArray(z0) == 0) { if (kind == 3) an->setRCoef(0.8); m->setAnam(an); }
     keep.emplace_back(an);
   }
   if (m != nullptr && kind == 4) m->setDriftIRF(0, 1);
@@ -251,10 +252,10 @@ static std::string run(const Sx& c) {
     } else if (id == 12) {    // CalcSimuPartition (sub 0 voronoi, 1 poisson; p = (model)) / CalcSimuSubstitution (sub 2; p = (nfacies))
       DbGrid* g = dynamic_cast<DbGrid*>(dout);
       if (g == nullptr) ret = -2;
-      else if (sub == 2) { SimuSubstitutionParam sp((int) P(0)); ret = substitution(g, sp, 4321, false, nc) == 0; }
+      else if (sub == 2) { SimuSubstitutionParam sp((int) P(0), P(1) > 0 ? (double) P(1) : 0.001); ret = substitution(g, sp, 4321, false, nc) == 0; }
       else {
         std::unique_ptr<Model> model(P(0) >= 0 ? make_model(P(0), nullptr, keep) : nullptr);
-        SimuPartitionParam pp(10, 0.1);
+        SimuPartitionParam pp(10, P(1) > 0 ? (double) P(1) : 0.001);   // intensity: 0 -> (almost) surely no Poisson plane
         ret = (sub == 0 ? tessellation_voronoi(g, model.get(), pp, 4321, false, nc) : tessellation_poisson(g, model.get(), pp, 4321, false, nc)) == 0;
       }
     } else if (id == 13) {    // CalcSimuEden: p = (nfacies nfluids niter) ; aux = (name_facies name_fluid)
